@@ -23,7 +23,10 @@ FAMILIES = ["normal", "laplace", "pareto", "gpareto", "gpareto0", "gev", "gev0",
             "binomial", "negbinomial", "poisson", "geometric", "categorical", "delta",
             "logt_normal", "logt_gamma", "trans_exp", "mix_normal_exp", "mix_exp_pareto",
             "iid_normal", "iid_exp", "id_normal_exp",
-            "vnormal", "vt", "skewnormal", "iwishart"]
+            "vnormal", "vt", "skewnormal", "iwishart",
+            # the vector / matrix families and the products at dimension 1 and 3
+            "vnormal1", "vnormal3", "vt1", "vt3", "skewnormal1", "iid_normal1", "iid_normal3", "iid_exp3",
+            "id_normal1", "id_nen3", "iwishart1", "iwishart3"]
 CDF_FAMILIES = ["normal", "laplace", "pareto", "gpareto", "gpareto0", "gev", "gev0", "gamma", "chisq",
                 "exponential", "powerlaw", "categorical"]
 UNMODELLED = [
